@@ -1,9 +1,10 @@
 (* C07 - the compiler accepts exactly the XPath 3.1 grammar and flag set.
    Proved here: the flag half, in full (for flag strings without the ';' engine-specific suffix,
    on which the property makes no claim).  The pattern half (model compiler = Spec.Parse grammar,
-   P1/P2 of DESIGN.md) is not proved yet; it is carried by the exhaustive short-string
-   correspondence against the three-valued grammar. *)
-From RX Require Import Base.Prelude Spec.Syntax Spec.Parse Model.Compiler Proofs.SmallFacts.
+   P1/P2 of DESIGN.md) is not proved; one rule of it is: the {n,m} parser accepts only bounds with
+   n <= m <= usize::MAX, reports everything else as a classified error, and never panics.  The rest
+   is carried by the exhaustive short-string correspondence against the three-valued grammar. *)
+From RX Require Import Base.Prelude Spec.Syntax Spec.Parse Model.Compiler Proofs.SmallFacts Proofs.BracketFacts.
 
 Theorem C07_flags :
   forall (xpath : bool) (s : list N),
@@ -20,4 +21,15 @@ Example C07_ex :
   /\ spec_flags true [105;105]%N <> Invalid.
 Proof. vm_compute. repeat split; eauto; discriminate. Qed.
 
+Theorem C07_quantifier_bounds_partial :
+  forall pat st,
+    match bracket pat st with
+    | Ok st' => (bmin st' <= bmax st')%N /\ (bmax st' <= umax)%N /\ (idx st + 2 < idx st')%nat
+                /\ parens st' = parens st /\ captures st' = captures st
+    | Err e => e = ESyntax \/ e = EInternal
+    | Panic _ | Out => False
+    end.
+Proof. exact bracket_spec. Qed.
+
 Print Assumptions C07_flags.
+Print Assumptions C07_quantifier_bounds_partial.
